@@ -196,7 +196,19 @@ def run(chk, ctx):
 
     v = marshal_of('body.ContentBody', {'value': Sym('field', 'value')})
     env = L.parse_envelope(v) if v is not None else None
-    if env is None:
+    if env is None and isinstance(v, Sym) and v.op == 'cond':
+        alts = [a for a in v.args[1:]]
+        bad = [a for a in alts if L.parse_envelope(a) is None or
+               len(L.parse_envelope(a)['payload']) != 1 or
+               L.parse_envelope(a)['payload'][0] is not
+               Sym('field', 'value')]
+        chk.ob('C04.B', 'content body envelope', not bad,
+               'depending on %s the body is emitted as %s' %
+               (T.show(v.args[0])[:60], T.show(bad[0])[:100] if bad else
+                'one envelope'),
+               detail={'expected': 'one frame: header(3, channel, '
+                       'len(value)) ++ value ++ 0xCE for every value'})
+    elif env is None:
         chk.undecide('C04.B', 'content body', 'not an envelope: %s' %
                      T.show(v)[:120])
     else:
@@ -246,6 +258,16 @@ def run(chk, ctx):
             else:
                 chk.ob('C04.X', '%s (%s)' % (wtype, fi.short), okk, fact,
                        detail={'reference': ref}, site=site)
+    from .. import tsrules
+    for cons, okk, why in tsrules.decimal_sign_rule(ctx):
+        chk.ob('C04.X', cons, okk, why, site='pamqp/encode.py::decimal')
+    tsres, _n = tsrules.timestamp_operands(ctx)
+    for cons, okk, why in tsres:
+        chk.ob('C04.X', cons, okk, why, site='pamqp/encode.py::timestamp')
+    for cons, okk, why in tsrules.table_key_rule(ctx):
+        if okk is not None:
+            chk.ob('C04.T', cons, okk, why,
+                   site='pamqp/encode.py::field_table')
     tables.check_tag_encoders(chk, ctx, 'C04.X')
     tables.check_table_entry_order(chk, ctx, 'C04.T')
     chk.floor('C04.X', 8 + 10, 'primitive encoders')
